@@ -61,7 +61,49 @@ def retry_history(rng, cfg):
                 ops.append('op srvset %d %d %d' % (s, rng.randrange(5), rng.choice([0, 1, 5, 16])))
     return ops
 
+def connect_history(rng, cfg):
+    """the connection of a stream server is re-established by the real connecter (tcpconnect) while requests are
+    outstanding; the writer is woken any number of times while the connection is being made (a new request, a timer)
+    and once after it is up: every request still outstanding goes out again on the new connection and keeps its count"""
+    ops = []
+    now = 1000005
+    idc = rng.randrange(256)
+    def rq():
+        nonlocal idc
+        pkt, _ = pipeline.clean_request(rng, cfg, 0, code=rng.choice([1, 1, 4]), ident=idc, ma=True)
+        idc = (idc + 1) % 256
+        ops.append('op cpkt 0 %d %s %s' % (now, pipeline.rnd40(rng), hx(pkt)))
+    for _ in range(rng.randrange(1, 4)):
+        rq()
+    ops.append('op wpass 0 %d %s' % (now, pipeline.rnd40(rng)))
+    for cycle in range(rng.choice([1, 1, 2])):
+        ops.append('op connbegin 0')
+        for _ in range(rng.choice([0, 1, 1, 2, 3])):
+            if rng.random() < 0.4:
+                rq()
+            now += rng.choice([0, 1, 2])
+            ops.append('op wpass 0 %d %s putfail' % (now, pipeline.rnd40(rng)))
+        ops.append('op connend 0')
+        now += rng.choice([0, 1])
+        ops.append('op wpass 0 %d %s' % (now, pipeline.rnd40(rng)))
+        if rng.random() < 0.5:
+            rq()
+            ops.append('op wpass 0 %d %s' % (now, pipeline.rnd40(rng)))
+    if rng.random() < 0.5:
+        ops.append('op sreply 0 %d %d %s 2 - 80:auto' % ((idc - 1) % 256, now, pipeline.rnd40(rng)))
+    return ops
+
 def generate(rng, tier):
+    def modstream(rng, cfg):
+        for s in cfg.servers:
+            s.statsrv = rng.choice([0, 0, 1, 2, 3])
+            s.type = pipeline.T_TCP
+            s.retrycount = rng.choice([None, 0])
+            s.retryint = rng.choice([None, 5, 30, 60])
+        for r in cfg.realms:
+            r.srv = [0]; r.acc = [0]
+        for c in cfg.clients:
+            c.dupint = None; c.reqma = False; c.reqmap = False
     def mod(rng, cfg):
         for s in cfg.servers:
             s.retrycount = rng.choice([None, 0, 0, 1, 2, 3, 5, 10])
@@ -77,4 +119,5 @@ def generate(rng, tier):
                 r.acc = list(r.srv)
     n = 1500 if tier == 'thorough' else 80
     import focus
-    return pipeline.guided_cases(rng, n, retry_history, 'retry', cfgmod=mod) + focus.dynext_cases(rng, 200 if tier == 'thorough' else 16)
+    return (pipeline.guided_cases(rng, n, retry_history, 'retry', cfgmod=mod) + focus.dynext_cases(rng, 200 if tier == 'thorough' else 16)
+            + pipeline.guided_cases(rng, 200 if tier == 'thorough' else 16, connect_history, 'conn', rich=False, cfgmod=modstream))
